@@ -4,3 +4,4 @@ pub mod filter;
 pub mod outline;
 pub mod retryopts;
 pub mod stepmatch;
+pub mod sched;
